@@ -401,7 +401,7 @@ def r_idx_pair(ck: Checker) -> None:
                     if key_ is None:
                         continue
                     n_look += 1
-                    if key_ in (tag_, f"{vp_}['idx']") or key_.endswith(".source_registry_id"):
+                    if key_ in (tag_, f"{vp_}['idx']", f"{vp_}.get('idx', None)") or key_.endswith(".source_registry_id"):
                         continue
                     if key_.startswith(f"{vp_}.get(") or key_.startswith(f"{vp_}["):
                         bad_k = f"the table is consulted with {key_} (not the value written under 'idx')"
@@ -602,6 +602,7 @@ def run(ck: Checker) -> None:
     ck.guard("R-IDX-PAIR", lambda: r_one_source_table(ck))
     from . import state_rules as S4
     ck.guard("R-IDX-PAIR", lambda: S4.r_who_calls(ck, "R-IDX-PAIR", (ORIGIN, "pyoak.node", "pyoak.serialize"), "clear_registry", (), "the source registry is emptied by the user only: loading sources, (de)serializing and constructing never drop registered sources"))
+    ck.guard("R-IDX-PAIR", lambda: S4.r_index_presence(ck, "R-IDX-PAIR", [(ORIGIN, "Source._deserialize")], (r".*\.get\('idx'(, None)?\)", r".*\['idx'\]", r".*\.source_registry_id", r".*\._sources\[.*\]"), "the first source registered has index 0"))
     ck.guard("R-FMT-PAIR", lambda: r_codec_config(ck))
     # a multi-origin must come back equal: its derived source follows the members' sources by value
     from .c15 import r_multiorigin_init
